@@ -10,6 +10,11 @@ CLAIMS = {
   note="Assumes: parameter names within one pattern are distinct (type invariant, not enforced by parseRoutePattern); strings.Split/TrimSpace/HasPrefix deterministic (uninterpreted); net/http path cleaning in front of the router not modelled; dispatcher closures in cmd/glyph (404 path, compiled-route table) are not yet under contract.",
   technique="contract-based deductive verification: weakest-precondition VCs over go/ssa of the real functions, loop invariants, z3/cvc5",
   design="§5 C05"),
+ "C17": dict(
+  text="Deductive proof that on every control-flow path of StaticFileServer.ServeHTTP, serveDirectoryListing and ResponseHelper.SendFile the path handed to os.Open / os.ReadDir is the output of a successful EvalSymlinks and satisfies within(root, p) (p == root or p has prefix root+'/') for the server's symlink-resolved root; isSubPath is proved equal to within; the constructor is proved to store a resolved root and the option closures to leave it alone; a structural scan proves no other function of pkg/web opens or serves files.",
+  note="Assumes file-system semantics (EvalSymlinks yields a symlink-free path; no TOCTOU between check and open), net/http path cleaning before ServeHTTP, http.ServeContent serving exactly the opened file; foreign StaticOption values are assumed to respect the option frame. One genuine defect (symlinked index.html served from outside the root) was found by the os.Open obligation and repaired (fix: a15c7cc).",
+  technique="contract-based deductive verification: WP over go/ssa with call-site preconditions on file-system calls, ghost predicate resolved(), structural call-site confinement scan",
+  design="§5 C17"),
 }
 
 def main():
